@@ -309,21 +309,46 @@ def handshake_waiter(ctx, fid, forward, inst, what, err_edge, exits_kind="ret+tr
         ok &= not bad
     return ok
 
+def _not_own_blocker(g, pt, t):
+    """the receiver of this SyncBlocker call is NOT the caller's own blocker (`SyncBlocker::current()`): it is a waiter taken from a queue"""
+    if not t["args"]: return True
+    o = simplify(trace_operand(g, t["args"][0]))
+    for _ in range(6):
+        while o[0] in ("ref", "deref", "clone", "field", "downcast", "index", "cast"): o = simplify(o[1])
+        if o[0] == "call" and re.search(r"::(deref|as_ref|borrow|clone)$", o[2] or "") and g.term(o[1])["args"]:
+            o = simplify(trace_operand(g, g.term(o[1])["args"][0])); continue
+        break
+    if o[0] == "phi": return not any(x[0] == "call" and (x[2] or "").endswith("SyncBlocker::current") for x in o[2])
+    return not (o[0] == "call" and (o[2] or "").endswith("SyncBlocker::current"))
+
+TAKE_RELEASE_W = Call(re.escape(SB) + "::take_release", transitive=False, where=_not_own_blocker)
+SB_UNPARK_W = Call(re.escape(SB) + "::unpark", where=_not_own_blocker)
+
 def handshake_waker(ctx, fid, forward, inst, what, rule="R-SIB", forward_required=True):
-    """waker side: unpark the waiter, then take_release(); on true pass the thing on"""
-    f0 = ctx.fn(rule, fid, inst)
-    if f0 is None: return False
-    bodies = [g for g in [f0] + ctx.prog.closures_of(f0) if ctx.an.sites(g, TAKE_RELEASE, "must")]
-    if len(bodies) != 1:
-        ctx.missing(rule, fid, inst, "expected exactly one body in %s (or its closures) calling take_release, found %d" % (fid, len(bodies)))
+    """waker side: unpark the waiter, then take_release(); on true pass the thing on.
+    The waker body is looked for in `fid` (and its closures); when that helper does not exist (inlined by hand into its callers) every
+    function of the same type that calls take_release on a blocker that is not its own is a waker body."""
+    f0 = ctx.prog.fn(fid)
+    if f0 is not None:
+        ctx.fns_touched.add(fid)
+        bodies = [g for g in [f0] + ctx.prog.closures_of(f0) if ctx.an.sites(g, TAKE_RELEASE_W, "must")]
+    else:
+        cont = fid.rsplit("::", 1)[0] + "::"
+        bodies = [g for k, g in sorted(ctx.prog.fns.items()) if k.startswith(cont) and ctx.an.sites(g, TAKE_RELEASE_W, "must")]
+    if not bodies or (f0 is not None and len(bodies) != 1):
+        ctx.missing(rule, fid, inst, "expected a body in %s (or, if it is gone, in its type) calling take_release on a dequeued waiter, found %d" % (fid, len(bodies)))
         return False
-    fid = bodies[0].id
-    ok = ctx.order(fid, SB_UNPARK, TAKE_RELEASE, inst + "/unpark-then-take-release",
-                   "%s: the waker marks the waiter unparked before it looks for a release request (Dekker)" % fid, rule=rule)
-    if forward_required:
-        ok &= ctx.must_follow(fid, None, forward, inst + "/release-forwards",
-                              "%s: a waker that finds a release request passes the %s on" % (fid, what), rule=rule,
-                              edge=call_true(re.escape(SB) + "::take_release"), edge_label="edge `take_release()` is true")
+    ok = True
+    for g in bodies:
+        gi = inst if f0 is not None else "%s@%s" % (inst, g.id.rsplit("::", 1)[-1] if "{closure" not in g.id else g.id.split("::")[-2])
+        ok &= ctx.order(g.id, SB_UNPARK_W, TAKE_RELEASE_W, gi + "/unpark-then-take-release",
+                        "%s: the waker marks the waiter unparked before it looks for a release request (Dekker)" % g.id, rule=rule)
+        if forward_required:
+            def released(a, g=g):
+                return call_true(re.escape(SB) + "::take_release")(a) and a.site is not None and _not_own_blocker(g, None, g.term(a.site))
+            ok &= ctx.must_follow(g.id, None, forward, gi + "/release-forwards",
+                                  "%s: a waker that finds a release request passes the %s on" % (g.id, what), rule=rule,
+                                  edge=released, edge_label="edge `take_release()` is true")
     return ok
 
 def syncblocker_rules(ctx, rule="R-SIB"):
@@ -362,7 +387,8 @@ def poison_rules(ctx):
         o = a.origin
         alts = [simplify(x) for x in o[2]] if o[0] == "phi" else [o]
         return any(x[0] == "call" and x[2] == C + "::is_canceled" for x in alts)
-    ctx.guarded(FD, PST, not_canceled_edge, "no-poison-on-cancel", "a guard dropped by a cancellation unwind releases without poisoning", pred_label="edge `is_canceled` is false")
+    # (in thread context there is no cancel: the `else { false }` arm of `is_canceled` is threaded straight to the store)
+    ctx.guarded(FD, PST, any_of(not_canceled_edge, call_false(r"may::coroutine_impl::is_coroutine")), "no-poison-on-cancel", "a guard dropped by a cancellation unwind releases without poisoning", pred_label="edge `is_canceled` is false")
     ctx.must_follow(FD, None, Call(re.escape(C) + "::is_canceled", transitive=False), "coroutine-consults-cancel", "in coroutine context the cancel state is consulted before poisoning",
                     edge=call_true(r"may::coroutine_impl::is_coroutine"), edge_label="edge `is_coroutine()` is true", exits=lambda g: ctx.an.sites(g, PST, "must"))
     def guard_not_panicking(a):
@@ -672,3 +698,15 @@ def mpsc_pop_reports_empty_only_when_empty(ctx):
     ctx.guarded(POP, Agg(r"(std|core)::option::Option", "None", transitive=False), empty, "mpsc/none-only-if-empty",
                 "pop returns None only when pop_index >= push_index (a reserved but not yet written slot is waited for, not reported as empty)",
                 pred_label="edge `pop_index >= push_index()`")
+
+
+def own_sites(ctx, g, ev):
+    """sites of g that perform `ev` themselves: direct matches, plus calls that are handed a closure of g which performs it directly
+    (`opt.map(|w| w.unpark())`). Unlike a transitive event this does not look into named callees."""
+    out = set(ctx.an.sites(g, ev, "must"))
+    cl = set(c.id for c in ctx.prog.closures_of(g) if ctx.an.sites(c, ev, "must"))
+    if cl:
+        for pt in g.points():
+            if g.is_term(pt) and g.node(pt)["t"] == "call" and any(norm(c) in cl or c in cl for c in closure_args(g, g.node(pt))):
+                out.add(pt)
+    return out
